@@ -874,11 +874,17 @@ DELAY_TOL = 0.05
 REALIGN_TOL = 0.06
 
 
+DELAY_AMPS = (1.0, 1.0, 1e-4, 1e-6, 1e3, 3e-5, 1.0, 2.5e-7)
+
+
 def delay_case(n, wav, a, c, d, dtype):
     """wave_shift_corrmax on a wavelet and its shifted copy; None when the property holds, else a description"""
     from ibldsp.fourier import fshift
     from ibldsp.waveforms import wave_shift_corrmax
-    w = (ricker(n, a, c) if wav == 'ricker' else morlet(n, a, c)).astype(dtype)
+    # the estimate does not depend on the physical unit of the traces: counts, microvolts, volts (1e-4 .. 1e-6) - the amplitude is
+    # derived from d so that a replay (n, wavelet, width, centre, shift, dtype) reproduces it
+    amp = DELAY_AMPS[int(abs(d) * 1e4) % len(DELAY_AMPS)]
+    w = (amp * (ricker(n, a, c) if wav == 'ricker' else morlet(n, a, c))).astype(dtype)
     w2 = fshift(w, d)
     lay = LAYOUTS_1D[int(abs(d) * 1000) % len(LAYOUTS_1D)]      # form of the two arguments, independent of the property
     w, w2 = layout_array(w, lay), layout_array(w2, LAYOUTS_1D[(int(abs(d) * 1000) // 7) % len(LAYOUTS_1D)])
